@@ -92,3 +92,15 @@ Definition layer (pool : list zone) : list zone :=
 
 Definition elems1 (names : list string) : list zone :=
   atoms names ++ layer (atoms names).
+
+(* rendering (same syntax as the harness uses for the live classes) *)
+From BS Require Import Core.Show.
+Local Open Scope string_scope.
+Fixpoint show_zone (z : zone) : string :=
+  match z with
+  | NotZone => "NotZone" | UnknownZone => "UnknownZone" | InvalidZone => "InvalidZone"
+  | InvalidSpecId s => "(InvalidSpecId """ ++ s ++ """)"
+  | SpecZone s => "(SpecZone """ ++ s ++ """)"
+  | GetItemOfZone a i => "(GetItemOfZone " ++ show_zone a ++ " " ++ show_zone i ++ ")"
+  | GetSubGridOfZone a x y => "(GetSubGridOfZone " ++ show_zone a ++ " " ++ show_zone x ++ " " ++ show_zone y ++ ")"
+  end.
